@@ -45,6 +45,10 @@ pub enum Layout {
     /// sorted runs cut into blocks of the given length, blocks shuffled
     Blocks(usize),
     Periodic,
+    /// the sorted multiset laid out residue class by residue class modulo `p` (positions ≡ 0, then ≡ 1, ...): every
+    /// residue class sees only a narrow slice of the alphabet, so anything that looks at every p-th (or k·p-th, or
+    /// p/k-th) element gets a badly skewed picture of the distribution
+    Strided(usize),
     /// grouped by symbol, rarest symbol first
     RareFirst,
     /// grouped by symbol, rarest symbol last
@@ -164,6 +168,7 @@ fn layout_class(l: &Layout) -> &'static str {
         Layout::Sorted => "sorted",
         Layout::Blocks(_) => "blocks",
         Layout::Periodic => "periodic",
+        Layout::Strided(_) => "strided",
         Layout::RareFirst => "rarefirst",
         Layout::RareLast => "rarelast",
         Layout::FreqAfterRare => "freqafterrare",
@@ -320,6 +325,21 @@ pub fn arrange(syms: &[u128], counts: &[usize], layout: &Layout, rng: &mut Rng) 
             rng.shuffle(&mut blocks);
             for bl in blocks {
                 out.extend_from_slice(bl);
+            }
+        }
+        Layout::Strided(p) => {
+            let p = (*p).max(1);
+            let mut tmp = Vec::with_capacity(n);
+            expand_sorted(&ident, &mut tmp);
+            out.resize(n, 0);
+            let mut k = 0usize;
+            for r in 0..p.min(n.max(1)) {
+                let mut i = r;
+                while i < n {
+                    out[i] = tmp[k];
+                    k += 1;
+                    i += p;
+                }
             }
         }
         Layout::Periodic => {
